@@ -1,10 +1,115 @@
 (* C18 — WSGI responses are framed and pipelined requests answered in order.
-   Statements only; proofs are in Proofs/WsgiProofs.v. *)
-From Hio Require Import Base.Prelude Model.Wsgi Proofs.WsgiProofs.
+   Statements only; proofs are in Proofs/WsgiProofs.v and Proofs/WsgiReader.v.
 
-(* The server closes the connection exactly when it reached a request that was
-   not persistent (or that it could not parse). *)
-Theorem C18_closed_iff_not_persistent : forall date conn rs out cl,
-  serve date rs conn = Ok (out, cl) -> cl = closes conn.
-Proof. exact serve_closed. Qed.
+   serve        : the model of Responder + Server.serviceReqs/serviceReps on one
+                  connection (Model/Wsgi.v), returns the byte stream and "closed"
+   read_stream  : an independent reader of that stream (status line, headers,
+                  body by Content-Length / chunked / until close); it fails on a
+                  body that is not self-delimiting while the connection is open
+   answered     : the requests up to and including the first non persistent one
+   expected     : what the application of that request said
+
+   Full statement of the property:
+     forall date conn, wf_conn conn -> wf_date date ->
+       exists out, serve date None conn = Ok (out, closes conn) /\
+                   read_stream out (closes conn) = Some (map (expected date) (answered conn))
+   It is FALSE of the code (C18_http10_keepalive_unframed_refuted): an HTTP/1.0
+   keep-alive request answered without Content-Length.  It is proved for every
+   other input (hypothesis framed_conn excludes exactly that class). *)
+From Coq Require Import Strings.String.
+From Hio Require Import Base.Prelude Model.Wsgi Proofs.WsgiProofs Proofs.WsgiReader.
+Local Open Scope N_scope.
+
+(* Every response is self-delimiting while the connection stays open, responses
+   come in request order, each reads back as exactly the application's status,
+   headers (plus Server/Date/Transfer-Encoding) and body; for all request
+   sequences (1.0 / 1.1, any Connection header), all well-formed application
+   outputs (any status, headers, body pieces incl. empty ones, with or without
+   Content-Length, declared length <= what the app yields), Responder created or
+   reused. *)
+Theorem C18_framed_in_order_partial : forall date conn,
+  wf_date date = true -> wf_conn conn = true -> framed_conn conn = true ->
+  exists out,
+    serve date None conn = Ok (out, closes conn)
+    /\ read_stream out (closes conn) = Some (List.map (expected date) (answered conn)).
+Proof. exact wsgi_main. Qed.
+Print Assumptions C18_framed_in_order_partial.
+
+(* The excluded class is real: two HTTP/1.0 keep-alive requests, apps without
+   Content-Length -> the stream does not read back (the first body never ends). *)
+Definition d21b_conn : list (req * app) :=
+  let q := {| r_v11 := false; r_conn := Some (bs "keep-alive"); r_ok := true |} in
+  [(q, {| a_status := bs "200 OK"; a_headers := []; a_pieces := [bs "one"] |});
+   (q, {| a_status := bs "200 OK"; a_headers := []; a_pieces := [bs "two"] |})].
+Theorem C18_http10_keepalive_unframed_refuted :
+  exists date conn out cl,
+    wf_date date = true /\ wf_conn conn = true /\ serve date None conn = Ok (out, cl) /\ cl = false /\
+    read_stream out cl <> Some (List.map (expected date) (answered conn)).
+Proof.
+  exists (bs "Mon, 21 Sep 2026 12:00:00 GMT"), d21b_conn.
+  destruct (serve (bs "Mon, 21 Sep 2026 12:00:00 GMT") None d21b_conn) as [[out cl]|] eqn:E;
+    vm_compute in E; [|discriminate].
+  inversion E; subst. do 2 eexists. repeat split. vm_compute. discriminate.
+Qed.
+Print Assumptions C18_http10_keepalive_unframed_refuted.
+
+(* The stream never depends on whether the Responder was freshly created or is
+   being reused after an earlier response (the D21 repair), for ALL inputs. *)
+Theorem C18_reuse_equals_fresh : forall date conn r,
+  (forall qa, In qa conn -> cl_ok (snd qa)) ->
+  serve date (Some r) conn = serve date None conn.
+Proof. intros. rewrite !serve_spec by assumption. reflexivity. Qed.
+Print Assumptions C18_reuse_equals_fresh.
+
+(* The body never exceeds a declared Content-Length (no hypothesis on the app). *)
+Theorem C18_body_within_declared : forall date q a L,
+  declared a = Some L -> len (p_body (expected date (q, a))) <= L.
+Proof. exact expected_body_le. Qed.
+Print Assumptions C18_body_within_declared.
+
+(* "exactly the application's status and headers": status verbatim; the app's
+   headers first, in order (names case-folded); anything after them was added by
+   the server and is one of Server, Date, Transfer-Encoding. *)
+Theorem C18_status_and_headers : forall date q a,
+  hfind s_transfer_encoding (a_headers a) = None ->
+  p_status (expected date (q, a)) = a_status a /\
+  exists added,
+    p_headers (expected date (q, a)) = List.map norm_header (a_headers a) ++ added
+    /\ Forall (fun h => In (fst h) [s_server; s_date; s_transfer_encoding]) added.
+Proof. intros. split; [apply expected_status | now apply expected_headers]. Qed.
+Print Assumptions C18_status_and_headers.
+
+(* The connection is closed after a response exactly when its request was not
+   persistent: every answered request except the last one was persistent (the
+   connection stayed open after it), and the connection ends up closed iff the
+   last answered request was not persistent. *)
+Theorem C18_closed_iff_not_persistent : forall conn,
+  forallb (fun qa => r_ok (fst qa)) conn = true ->
+  (forall l1 qa l2, answered conn = l1 ++ qa :: l2 -> l2 <> [] -> persisted (fst qa) = true)
+  /\ (closes conn = true <-> exists l1 qa, answered conn = l1 ++ [qa] /\ persisted (fst qa) = false)
+  /\ (forall date rs out cl, serve date rs conn = Ok (out, cl) -> cl = closes conn).
+Proof.
+  intros conn H. split; [apply answered_inner_persisted|]. split; [now apply closes_iff|].
+  intros. eapply serve_closed; eauto.
+Qed.
 Print Assumptions C18_closed_iff_not_persistent.
+
+(* Non-vacuity: a pipelined connection mixing 1.1 chunked, 1.0 keep-alive with a
+   clamped Content-Length, and a final Connection: close; it satisfies every
+   hypothesis above and reads back as three responses. *)
+Definition ex_conn : list (req * app) :=
+  [({| r_v11 := true; r_conn := None; r_ok := true |},
+    {| a_status := bs "200 OK"; a_headers := [(bs "Content-Type", bs "text/plain")];
+       a_pieces := [bs "hello "; []; bs "world"] |});
+   ({| r_v11 := false; r_conn := Some (bs "Keep-Alive"); r_ok := true |},
+    {| a_status := bs "404 Not Found"; a_headers := [(bs "CONTENT-LENGTH", bs "4")];
+       a_pieces := [bs "ab"; bs "cdef"] |});
+   ({| r_v11 := true; r_conn := Some (bs "close"); r_ok := true |},
+    {| a_status := bs "200 OK"; a_headers := []; a_pieces := [] |});
+   ({| r_v11 := true; r_conn := None; r_ok := true |},
+    {| a_status := bs "200 OK"; a_headers := []; a_pieces := [bs "never"] |})].
+Example C18_example :
+  wf_conn ex_conn = true /\ framed_conn ex_conn = true /\ closes ex_conn = true /\
+  List.map (fun r => (p_framing r, p_body r)) (List.map (expected (bs "D")) (answered ex_conn))
+  = [(ByChunks, bs "hello world"); (ByLength, bs "abcd"); (ByChunks, [])].
+Proof. vm_compute. repeat split. Qed.
